@@ -325,6 +325,10 @@ def check(ctx):
     with ctx.shared({"C13.R3": ("C17.R6", "a PDU whose version differs from the negotiated one is refused at any point of the connection: the interval "
                                 "fields of a version-1 End of Data never reach a version-0 session")}):
         C13.r3(ctx, retsets)
+    from specs import C11
+    ctx.rule("C17.R7", "the three intervals reach rtr_init in their own positions: no two same-named parameters are exchanged crosswise on the way "
+             "down (library-wide check of every parameter handed on to a callee)")
+    C11.no_swapped_arguments(ctx, "C17.R7")
 
 
 PK = "rtrlib/rtr/packets.c"
